@@ -14,6 +14,7 @@ import (
 	"encoding/hex"
 	"encoding/json"
 	"fmt"
+	"io"
 	"os"
 	"path/filepath"
 	"sort"
@@ -31,6 +32,7 @@ import (
 	"github.com/ozontech/seq-db/mappingprovider"
 	pb "github.com/ozontech/seq-db/pkg/storeapi"
 	"github.com/ozontech/seq-db/proxy/search"
+	"github.com/ozontech/seq-db/proxy/stores"
 	"github.com/ozontech/seq-db/seq"
 	"github.com/ozontech/seq-db/storeapi"
 
@@ -111,7 +113,7 @@ func namesHex(ss []string, sep string) string {
 type keyForm struct{ raw, name string } // JSON text of the key (with quotes) and its unescaped value
 
 var plainKeys = []keyForm{{`"a"`, "a"}, {`"b"`, "b"}, {`"c"`, "c"}, {`"msg"`, "msg"}, {`"level"`, "level"}, {`"k8s_pod"`, "k8s_pod"},
-	{`"ts"`, "ts"}, {`"a.b"`, "a.b"}, {`"x y"`, "x y"}, {`"A"`, "A"}}
+	{`"ts"`, "ts"}, {`"a.b"`, "a.b"}, {`"x y"`, "x y"}, {`"A"`, "A"}, {`"a|b"`, "a|b"}, {`"p|"`, "p|"}}
 var fancyKeys = []keyForm{{`"k\"q"`, `k"q`}, {`"tab\tx"`, "tab\tx"}, {`"sl\/ash"`, "sl/ash"}, {`"bs\\x"`, `bs\x`}, {`"unié"`, "unié"},
 	{`"é"`, "é"}, {`"emo😀"`, "emo😀"}, {`"😀pair"`, "😀pair"}, {`""`, ""}, {`"<&>"`, "<&>"}, {`"nl\nx"`, "nl\nx"}, {`"Az"`, "Az"}, {`"日本"`, "日本"}}
 
@@ -278,9 +280,9 @@ func filterChannel(o vh.Opts, r *vh.RNG) *vh.Channel {
 func pipeChannel(o vh.Opts, r *vh.RNG) *vh.Channel {
 	ch := vh.NewChannel("fields.pipe", "proxy/search.tryParseFieldsFilter on generated SeqQL queries (filter part x optional `| fields [except] names`, quoted names, a second fields pipe = parse error, legacy/invalid queries) vs SV.Fields.firstFieldsPipe on the generated pipe list; non-trivial = a fields pipe is present")
 	filters := []string{`message:a`, `*`, `level:info and not k8s_pod:x*`, `(a:b or c:d)`, `message:"x | fields y"`}
-	names := []string{"a", "message", "k8s_pod", "x y", "ts", "level", "a.b", "zone-1"}
+	names := []string{"a", "message", "k8s_pod", "x y", "ts", "level", "a.b", "zone-1", "a|b", "p|", "h#1", "| fields z"}
 	quote := func(s string) string {
-		if strings.ContainsAny(s, " .") {
+		if strings.ContainsAny(s, " .|#") {
 			return `"` + s + `"`
 		}
 		return s
@@ -312,6 +314,12 @@ func pipeChannel(o vh.Opts, r *vh.RNG) *vh.Channel {
 				q += "except "
 			}
 			q += strings.Join(qs, []string{", ", ",", " , "}[r.Intn(3)])
+			switch r.Intn(5) {
+			case 0:
+				q += " # show these | only"
+			case 1:
+				q += "\n# comment | fields other\n"
+			}
 			model = fmt.Sprintf("F:%s:%s", vh.B(except), namesHex(fs, "+"))
 			want = fmt.Sprintf("ok %s %s", vh.B(!except), namesHex(fs, ","))
 		}
@@ -412,6 +420,169 @@ func multiset(ps []kv) []string {
 	return r
 }
 
+type stored struct {
+	id   seq.ID
+	doc  []byte
+	keys []keyForm
+}
+
+// localStore lets the real proxy search.Ingestor talk to the real in-process store (storeapi.GrpcV1).
+type localStore struct {
+	pb.StoreApiClient
+	g *storeapi.GrpcV1
+}
+
+func (l *localStore) Search(ctx context.Context, in *pb.SearchRequest, _ ...grpc.CallOption) (*pb.SearchResponse, error) {
+	return l.g.Search(metadata.NewIncomingContext(ctx, metadata.Pairs("use-seq-ql", "true")), in)
+}
+
+type clientStream struct {
+	grpc.ClientStream
+	blocks [][]byte
+	pos    int
+}
+
+func (c *clientStream) Recv() (*pb.BinaryData, error) {
+	if c.pos >= len(c.blocks) {
+		return nil, io.EOF
+	}
+	c.pos++
+	return &pb.BinaryData{Data: c.blocks[c.pos-1]}, nil
+}
+
+func (l *localStore) Fetch(ctx context.Context, in *pb.FetchRequest, _ ...grpc.CallOption) (pb.StoreApi_FetchClient, error) {
+	fs := &fakeStream{ctx: ctx}
+	if err := l.g.Fetch(in, fs); err != nil {
+		return nil, err
+	}
+	return &clientStream{blocks: fs.blocks}, nil
+}
+
+// searchOracle: the real proxy search.Ingestor.Search (search at the store, pagination, fetch with the filter the
+// proxy derives from the query text, merged docs stream) over the real store, with and without a `| fields` pipe.
+func searchOracle(o vh.Opts, r *vh.RNG, rep *vh.Report, g *storeapi.GrpcV1, docs []stored) *vh.Oracle {
+	orc := vh.NewOracle("fields.search", "real proxy/search.Ingestor.Search over the real in-process store (search, pagination, fetch with the filter derived from the query text, docs stream) for `service:c20 | fields [except] names` vs the same search without the pipe: same IDs in the same order, same number of documents, every document the exact projection of the document the plain search returns (which must be the stored bytes); names incl. quoted ones with `|`, trailing `#` comments, sizes/offsets/orders vary; non-trivial = at least one field kept and one removed")
+	byID := map[seq.ID]*stored{}
+	for i := range docs {
+		byID[docs[i].id] = &docs[i]
+	}
+	empty := &stores.Stores{}
+	si := search.NewIngestor(search.Config{HotStores: &stores.Stores{Shards: [][]string{{"s0"}}}, HotReadStores: empty, ReadStores: empty, WriteStores: empty},
+		map[string]pb.StoreApiClient{"s0": &localStore{g: g}})
+	run := func(q string, off, size int, order seq.DocsOrder) ([]seq.ID, [][]byte, error) {
+		qpr, ds, _, err := si.Search(context.Background(), &search.SearchRequest{Q: []byte(q), From: 0, To: seq.MID(1 << 42), Offset: off, Size: size, ShouldFetch: true, Order: order}, nil)
+		if err != nil {
+			return nil, nil, err
+		}
+		var ids []seq.ID
+		var out [][]byte
+		for _, id := range qpr.IDs {
+			d, err := ds.Next()
+			if err != nil {
+				return nil, nil, err
+			}
+			ids = append(ids, id.ID)
+			out = append(out, append([]byte{}, d.Data...))
+		}
+		return ids, out, nil
+	}
+	n := o.Pick(200, 2500)
+	for q := 0; q < n; q++ {
+		base := &docs[r.Intn(len(docs))]
+		var fields []string
+		for j := 1 + r.Intn(4); j > 0; j-- {
+			if len(base.keys) > 0 && r.Intn(4) > 0 {
+				fields = append(fields, base.keys[r.Intn(len(base.keys))].name)
+			} else {
+				fields = append(fields, []string{"no_such_field", "level", "a", "a|b"}[r.Intn(4)])
+			}
+		}
+		// only names the query language can carry without escapes beyond quoting
+		ok := true
+		var qn []string
+		for _, f := range fields {
+			simple := f != ""
+			for _, c := range f {
+				simple = simple && (c >= 'a' && c <= 'z' || c >= 'A' && c <= 'Z' || c >= '0' && c <= '9' || c == '_' || c == '|' || c == ' ' || c == '.')
+			}
+			ok = ok && simple
+			if strings.ContainsAny(f, "| .") {
+				f = `"` + f + `"`
+			}
+			qn = append(qn, f)
+		}
+		if !ok {
+			continue
+		}
+		allow := r.Bool()
+		qs := "service:c20 | fields "
+		mode := "allow"
+		if !allow {
+			qs += "except "
+			mode = "except"
+		}
+		qs += strings.Join(qn, ", ")
+		if r.Intn(4) == 0 {
+			qs += " # only | these"
+		}
+		off, size := r.Intn(20), 1+r.Intn(40)
+		order := seq.DocsOrderDesc
+		if r.Bool() {
+			order = seq.DocsOrderAsc
+		}
+		line := fmt.Sprintf("search seed=%d req=%d off=%d size=%d order=%d query=%s", o.Seed, q, off, size, order, hex.EncodeToString([]byte(qs)))
+		ids0, plain, err1 := run("service:c20", off, size, order)
+		ids1, filt, err2 := run(qs, off, size, order)
+		bad := ""
+		keptAny, removedAny := false, false
+		switch {
+		case err1 != nil || err2 != nil:
+			bad = fmt.Sprintf("search failed: %v / %v", err1, err2)
+		case len(ids0) != len(ids1) || len(plain) != len(filt):
+			bad = fmt.Sprintf("%d documents without the pipe, %d with it", len(ids0), len(ids1))
+		case len(ids0) == 0:
+			bad = "the plain search returned nothing"
+		}
+		for i := 0; bad == "" && i < len(ids0); i++ {
+			if ids0[i] != ids1[i] {
+				bad = fmt.Sprintf("position %d: another document than without the pipe", i)
+				break
+			}
+			st := byID[ids0[i]]
+			if st == nil || !bytes.Equal(plain[i], st.doc) {
+				bad = fmt.Sprintf("position %d: the plain search does not return the stored bytes", i)
+				break
+			}
+			got, err := topLevel(filt[i])
+			if err != nil || !json.Valid(filt[i]) {
+				bad = fmt.Sprintf("position %d: answer is not a JSON object: %q", i, clip(filt[i]))
+				break
+			}
+			orig, _ := topLevel(st.doc)
+			var want []kv
+			for _, p := range orig {
+				listed := false
+				for _, f := range fields {
+					listed = listed || f == p.key
+				}
+				if listed == allow {
+					want = append(want, p)
+				}
+			}
+			keptAny = keptAny || len(want) > 0
+			removedAny = removedAny || len(want) < len(orig)
+			if strings.Join(multiset(got), "\x00") != strings.Join(multiset(want), "\x00") {
+				bad = fmt.Sprintf("position %d: %s %q of %q gave %q", i, mode, fields, clip(st.doc), clip(filt[i]))
+			}
+		}
+		orc.Case(line, keptAny && removedAny, "mode="+mode, fmt.Sprintf("order=%d", order))
+		if bad != "" {
+			rep.Violate(vh.Violation{Site: "proxy/search/ingestor.go:Search", Class: "wrong-projection-or-document-set", What: bad + " (query " + qs + ")", Replay: []string{line}})
+		}
+	}
+	return orc
+}
+
 func fetchOracle(o vh.Opts, r *vh.RNG, rep *vh.Report) *vh.Oracle {
 	orc := vh.NewOracle("fields.fetch", "real storeapi.GrpcV1.Fetch with FieldsFilter over stored generated JSON objects (all value types, nesting, escapes, unicode, number notations, empty object, up to 26 fields) x field lists (present, absent, all, none, repeated) x allow/except, sealed and active fractions: every answer valid JSON, an object with exactly the expected top-level (name, value) multiset (values compared after json.Compact), not-found entries and the sequence of IDs as in the fetch without filter; non-trivial = at least one field kept and one removed in some document")
 	dir, err := os.MkdirTemp("", "verif-c20-")
@@ -433,11 +604,6 @@ func fetchOracle(o vh.Opts, r *vh.RNG, rep *vh.Report) *vh.Oracle {
 		Search: storeapi.SearchConfig{WorkersCount: 1, FractionsPerIteration: 1, RequestsLimit: consts.DefaultSearchRequestsLimit, Async: fracmanager.AsyncSearcherConfig{DataDir: filepath.Join(dir, "async")}},
 	}, fm, mp)
 
-	type stored struct {
-		id   seq.ID
-		doc  []byte
-		keys []keyForm
-	}
 	var docs []stored
 	nDocs := o.Pick(120, 1200)
 	ctx := context.Background()
@@ -548,7 +714,7 @@ func fetchOracle(o vh.Opts, r *vh.RNG, rep *vh.Report) *vh.Oracle {
 		for _, f := range fields {
 			ok := f != ""
 			for _, c := range f {
-				ok = ok && (c >= 'a' && c <= 'z' || c >= 'A' && c <= 'Z' || c >= '0' && c <= '9' || c == '_')
+				ok = ok && (c >= 'a' && c <= 'z' || c >= 'A' && c <= 'Z' || c >= '0' && c <= '9' || c == '_' || c == '|')
 			}
 			simple = simple && ok
 		}
@@ -558,7 +724,17 @@ func fetchOracle(o vh.Opts, r *vh.RNG, rep *vh.Report) *vh.Oracle {
 			if !allow {
 				qs += "except "
 			}
-			qs += strings.Join(fields, ", ")
+			qn := make([]string, len(fields))
+			for i, f := range fields {
+				qn[i] = f
+				if strings.Contains(f, "|") {
+					qn[i] = `"` + f + `"`
+				}
+			}
+			qs += strings.Join(qn, ", ")
+			if r.Intn(4) == 0 {
+				qs += " # projection | for the dashboard"
+			}
 			pf, pa := search.VerifC20ParseFieldsFilter(qs)
 			ff = &pb.FetchRequest_FieldsFilter{Fields: pf, AllowList: pa}
 			line += " query=" + hex.EncodeToString([]byte(qs))
@@ -626,6 +802,7 @@ func fetchOracle(o vh.Opts, r *vh.RNG, rep *vh.Report) *vh.Oracle {
 			violate("wrong-projection", bad, line)
 		}
 	}
+	rep.AddOracle(searchOracle(o, r, rep, g, docs))
 	return orc
 }
 
@@ -651,7 +828,11 @@ func main() {
 		for _, l := range lines {
 			var seed int64
 			var q int
-			if _, err := fmt.Sscanf(l, "fetch seed=%d req=%d", &seed, &q); err == nil {
+			_, err := fmt.Sscanf(l, "fetch seed=%d req=%d", &seed, &q)
+			if err != nil {
+				_, err = fmt.Sscanf(l, "search seed=%d req=%d", &seed, &q)
+			}
+			if err == nil {
 				o.Seed = seed
 				rng = vh.NewRNG(seed)
 				rng.Fork()
